@@ -1209,9 +1209,13 @@ class CodeGenerator(StructuredCodeGenerator):
         sym_table = self.sym_kind_table.per_phase_table.get(
                 self.current_function, {})
 
+        # Variables are released after their last use. That point is not
+        # reached if the phase is left early (FailStep, SwitchPhase) or if
+        # the last use is guarded by a condition that is false, so release
+        # everything (again) here. Releasing is a no-op for variables that
+        # have already been released.
         for identifier, sym_kind in sorted(sym_table.items()):
-            if (identifier, self.current_function) not in self.last_used_stmt_table:
-                self.emit_variable_deinit(identifier, sym_kind)
+            self.emit_variable_deinit(identifier, sym_kind)
 
         # }}}
 
